@@ -277,14 +277,20 @@ impl<F: Write + Seek> MiniAllocator<F> {
             header.write_le_u32(self.minifat_start_sector)?;
             header.write_le_u32(1)?;
         } else if self.minifat.len() % minifat_entries_per_sector == 0 {
+            // The MiniFAT chain never shrinks, so it may already have room
+            // for this entry even though the in-memory MiniFAT was trimmed.
             let start = self.minifat_start_sector;
-            self.directory.extend_chain(start, SectorInit::Fat)?;
             let num_minifat_sectors = self
                 .directory
                 .open_chain(start, SectorInit::Fat)?
-                .num_sectors() as u32;
-            let mut header = self.directory.seek_within_header(64)?;
-            header.write_le_u32(num_minifat_sectors)?;
+                .num_sectors();
+            if self.minifat.len()
+                >= num_minifat_sectors * minifat_entries_per_sector
+            {
+                self.directory.extend_chain(start, SectorInit::Fat)?;
+                let mut header = self.directory.seek_within_header(64)?;
+                header.write_le_u32(num_minifat_sectors as u32 + 1)?;
+            }
         }
         // Add a new mini sector to the end of the mini stream and return it.
         let new_mini_sector = self.minifat.len() as u32;
@@ -309,10 +315,18 @@ impl<F: Write + Seek> MiniAllocator<F> {
                 self.directory.begin_chain(SectorInit::Zero)?
             } else {
                 if mini_stream_len % sector_len as u64 == 0 {
-                    self.directory.extend_chain(
-                        mini_stream_start_sector,
-                        SectorInit::Zero,
-                    )?;
+                    // The mini stream's chain never shrinks either; only
+                    // extend it if it has no room left.
+                    let chain_len = self
+                        .directory
+                        .open_chain(mini_stream_start_sector, SectorInit::Zero)?
+                        .len();
+                    if mini_stream_len >= chain_len {
+                        self.directory.extend_chain(
+                            mini_stream_start_sector,
+                            SectorInit::Zero,
+                        )?;
+                    }
                 }
                 mini_stream_start_sector
             };
